@@ -27,8 +27,10 @@ package dns
 // the zone parser's line state machine: the most recently stated TTL is tracked unless a $TTL directive is
 // in force, $INCLUDE opens a file only when allowed and below the depth limit, $GENERATE does not nest
 //@ func (*ZoneParser).Next [C06 C07]
-//@   opt no-safety
-//@   requires zp != nil
+//@   requires zp != nil && zp.c != nil
+//@   requires lexinv: (zp.c.l.value == 1 ==> len(zp.c.l.token) > 0) && (zp.c.cachedL != nil ==> (zp.c.cachedL.value == 1 ==> len(zp.c.cachedL.token) > 0))
+//@   loop * invariant (zp.c.l.value == 1 ==> len(zp.c.l.token) > 0) && (zp.c.cachedL != nil ==> (zp.c.cachedL.value == 1 ==> len(zp.c.cachedL.token) > 0))
+//@   assume at "*rr.Header() = *h" tabctor: rr != nil && zp.c != nil && (zp.c.l.value == 1 ==> len(zp.c.l.token) > 0) && (zp.c.cachedL != nil ==> (zp.c.cachedL.value == 1 ==> len(zp.c.cachedL.token) > 0))
 //@   assert at "st = zExpectAnyNoTTLBl@1" ttltrack0: zp.defttl != nil && (zp.defttl.isByDirective || zp.defttl.ttl == ttl) && zp.h.Ttl == ttl [C06]
 //@   assert at "st = zExpectAnyNoTTLBl@2" ttltrack1: zp.defttl != nil && (zp.defttl.isByDirective || zp.defttl.ttl == ttl) && zp.h.Ttl == ttl [C06]
 //@   assert at "st = zExpectRrtypeBl@2" ttltrack2: zp.defttl != nil && (zp.defttl.isByDirective || zp.defttl.ttl == ttl) && zp.h.Ttl == ttl [C06]
@@ -41,10 +43,12 @@ package dns
 // range or when its counter would overflow, and a nested $GENERATE is refused
 //@ func NewZoneParser [C06 C07]
 //@   opt no-safety
-//@   ensures ret0 != nil
+//@   ensures ret0 != nil && ret0.c != nil && ret0.sub == nil && (ret0.c.l.value == 1 ==> len(ret0.c.l.token) > 0) && (ret0.c.cachedL != nil ==> (ret0.c.cachedL.value == 1 ==> len(ret0.c.cachedL.token) > 0))
 //@   fresh
 //@ func (*ZoneParser).generate [C06 C07]
 //@   requires zp != nil && zp.c != nil
+//@   requires lexinv: (zp.c.l.value == 1 ==> len(zp.c.l.token) > 0) && (zp.c.cachedL != nil ==> (zp.c.cachedL.value == 1 ==> len(zp.c.cachedL.token) > 0))
+//@   loop * invariant (zp.c.l.value == 1 ==> len(zp.c.l.token) > 0) && (zp.c.cachedL != nil ==> (zp.c.cachedL.value == 1 ==> len(zp.c.cachedL.token) > 0))
 //@   assert at "r := &generateReader{" range: 0 <= start && start <= end && step > 0 && (end - start) / step <= 65535
 //@   assert at "zp.sub = NewZoneParser(r, zp.origin, zp.file)" geninit: geninv(r.step, r.start, r.end, r.si, len(r.s), r.eof, r.cur) && r.lex != nil
 //@   assert at "return zp.subNext()" nonest: zp.sub != nil && zp.sub.generateDisallowed
@@ -67,8 +71,101 @@ package dns
 // the tokeniser's hand-grown token and comment buffers are never indexed out of range
 //@ func (*zlexer).Next [C07]
 //@   requires zl != nil
+//@   requires lexinv: (zl.l.value == 1 ==> len(zl.l.token) > 0) && (zl.cachedL != nil ==> (zl.cachedL.value == 1 ==> len(zl.cachedL.token) > 0))
+//@   ensures lexinv: (zl.l.value == 1 ==> len(zl.l.token) > 0) && (zl.cachedL != nil ==> (zl.cachedL.value == 1 ==> len(zl.cachedL.token) > 0))
+//@   ensures tok: ret0.value == 1 ==> len(ret0.token) > 0
 //@   loop 1 invariant 0 <= stri && stri <= len(str) && 0 <= comi && comi <= len(com) && len(str) > 0 && len(com) > 0
+//@   loop 1 invariant (zl.l.value == 1 ==> len(zl.l.token) > 0) && zl.cachedL == nil
 //@   exit sticky: old(zl.l.err) && old(zl.cachedL) == nil && !old(zl.nextL) ==> !ret1
+//@   exit nonempty: stri >= 0 && ret1 && ret0.value == 1 ==> len(ret0.token) > 0
 //@ func (*zlexer).readByte [C07]
 //@   opt no-safety
 //@   requires zl != nil
+
+// per-type presentation parsers: no index, slice, nil or conversion panic on any token stream
+//@ iface RR.parse [C07]
+//@   requires c != nil
+//@   requires lexinv: (c.l.value == 1 ==> len(c.l.token) > 0) && (c.cachedL != nil ==> (c.cachedL.value == 1 ==> len(c.cachedL.token) > 0))
+//@   loop * invariant (c.l.value == 1 ==> len(c.l.token) > 0) && (c.cachedL != nil ==> (c.cachedL.value == 1 ==> len(c.cachedL.token) > 0))
+//@ func (*EUI48).parse [C07]
+//@   loop 1 invariant 0 <= i && i % 2 == 0 && dash * 2 == i
+//@ func (*EUI64).parse [C07]
+//@   loop 1 invariant 0 <= i && i % 2 == 0 && dash * 2 == i
+
+// the lexer's stored tokens keep the "a string token is never empty" invariant (established by newZLexer,
+// preserved by Next and Peek), which is what lets LOC's size parser index the last octet of its token
+//@ func newZLexer [C07]
+//@   ensures ret0 != nil && (ret0.l.value == 1 ==> len(ret0.l.token) > 0) && (ret0.cachedL != nil ==> (ret0.cachedL.value == 1 ==> len(ret0.cachedL.token) > 0))
+//@   fresh
+//@ func (*zlexer).Peek [C07]
+//@   requires zl != nil
+//@   requires lexinv: (zl.l.value == 1 ==> len(zl.l.token) > 0) && (zl.cachedL != nil ==> (zl.cachedL.value == 1 ==> len(zl.cachedL.token) > 0))
+//@   ensures lexinv: (zl.l.value == 1 ==> len(zl.l.token) > 0) && (zl.cachedL != nil ==> (zl.cachedL.value == 1 ==> len(zl.cachedL.token) > 0))
+//@   ensures tok: ret0.value == 1 ==> len(ret0.token) > 0
+//@ func slurpRemainder [C07]
+//@   requires c != nil
+//@   requires lexinv: (c.l.value == 1 ==> len(c.l.token) > 0) && (c.cachedL != nil ==> (c.cachedL.value == 1 ==> len(c.cachedL.token) > 0))
+//@   loop * invariant (c.l.value == 1 ==> len(c.l.token) > 0) && (c.cachedL != nil ==> (c.cachedL.value == 1 ==> len(c.cachedL.token) > 0))
+//@   ensures lexinv: (c.l.value == 1 ==> len(c.l.token) > 0) && (c.cachedL != nil ==> (c.cachedL.value == 1 ==> len(c.cachedL.token) > 0))
+//@ func endingToString [C07]
+//@   requires c != nil
+//@   requires lexinv: (c.l.value == 1 ==> len(c.l.token) > 0) && (c.cachedL != nil ==> (c.cachedL.value == 1 ==> len(c.cachedL.token) > 0))
+//@   loop * invariant (c.l.value == 1 ==> len(c.l.token) > 0) && (c.cachedL != nil ==> (c.cachedL.value == 1 ==> len(c.cachedL.token) > 0))
+//@   ensures lexinv: (c.l.value == 1 ==> len(c.l.token) > 0) && (c.cachedL != nil ==> (c.cachedL.value == 1 ==> len(c.cachedL.token) > 0))
+//@ func endingToTxtSlice [C07]
+//@   requires c != nil
+//@   loop 2 invariant 0 <= p && p <= len(l.token)
+//@   requires lexinv: (c.l.value == 1 ==> len(c.l.token) > 0) && (c.cachedL != nil ==> (c.cachedL.value == 1 ==> len(c.cachedL.token) > 0))
+//@   loop * invariant (c.l.value == 1 ==> len(c.l.token) > 0) && (c.cachedL != nil ==> (c.cachedL.value == 1 ==> len(c.cachedL.token) > 0))
+//@   ensures lexinv: (c.l.value == 1 ==> len(c.l.token) > 0) && (c.cachedL != nil ==> (c.cachedL.value == 1 ==> len(c.cachedL.token) > 0))
+//@ func (*DNSKEY).parseDNSKEY [C07]
+//@   requires c != nil && rr != nil
+//@   requires lexinv: (c.l.value == 1 ==> len(c.l.token) > 0) && (c.cachedL != nil ==> (c.cachedL.value == 1 ==> len(c.cachedL.token) > 0))
+//@   loop * invariant (c.l.value == 1 ==> len(c.l.token) > 0) && (c.cachedL != nil ==> (c.cachedL.value == 1 ==> len(c.cachedL.token) > 0))
+//@ func (*DS).parseDS [C07]
+//@   requires c != nil && rr != nil
+//@   requires lexinv: (c.l.value == 1 ==> len(c.l.token) > 0) && (c.cachedL != nil ==> (c.cachedL.value == 1 ==> len(c.cachedL.token) > 0))
+//@   loop * invariant (c.l.value == 1 ==> len(c.l.token) > 0) && (c.cachedL != nil ==> (c.cachedL.value == 1 ==> len(c.cachedL.token) > 0))
+//@ func stringToCm [C07]
+//@   requires len(token) > 0
+//@   pure
+
+//@ func escapedStringOffset [C07 C05]
+//@   requires desiredByteOffset >= 0
+//@   ensures rng: ret1 ==> ret0 == -1 || (0 <= ret0 && ret0 <= len(s))
+//@   ensures pos: ret1 && desiredByteOffset > 0 && ret0 != -1 ==> ret0 > 0
+//@   loop 1 invariant 0 <= i && i <= len(s) && 0 <= currentByteOffset
+//@   pure
+//@ func (*LOC).parse [C07]
+//@   loop * invariant l.value == 1 ==> len(l.token) > 0
+
+//@ func (*SVCBAlpn).parse [C07]
+//@   loop 1 invariant 0 <= p
+// a sub-parser ($INCLUDE, $GENERATE) is a parser of its own: its invariants are those NewZoneParser
+// establishes, one level down (a recursive data-structure invariant, stated here and assumed at subNext)
+//@ func (*ZoneParser).subNext [C06 C07]
+//@   opt no-safety
+//@   requires zp != nil && zp.sub != nil
+//@ func ReadRR [C07]
+//@ func NewRR [C07]
+
+// swept for panic-freedom without further annotation
+//@ func classToInt [C07]
+//@ func typeToInt [C07]
+//@ func locCheckNorth [C07]
+//@ func locCheckEast [C07]
+//@ func stringToNodeID [C07]
+//@ func parseAddrHostUnion [C07]
+//@ func modToPrintf [C07 C06]
+//@ func svcbStringToKey [C07]
+//@ func svcbParamToStr [C07 C05]
+//@ func svcbParseParam [C07]
+//@ iface SVCBKeyValue.parse [C07]
+//@ func (*ZoneParser).setParseError [C07]
+//@ func (*ZoneParser).Err [C07]
+//@ func (*zlexer).Comment [C07]
+//@ func (*zlexer).Err [C07]
+//@ func (*PrivateRR).parse
+//@   opt exclude
+//@ func (*RR_Header).parse
+//@   opt exclude
